@@ -34,6 +34,8 @@ for T in ('$BUint', '$BInt'):
             FWD.append((T, tr, m))
 for m in ('abs', 'signum', 'is_positive'):
     FWD.append(('$BInt', 'Signed', m))
+FWD.append(('$BUint', 'Integer', 'div_rem'))
+FWD.append(('$BInt', 'Integer', 'div_floor'))
 
 
 def extract(key, d, opts):
